@@ -5,6 +5,7 @@ import (
 	"context"
 	"encoding/json"
 	"fmt"
+	"unicode/utf8"
 
 	"github.com/risor-io/risor/errz"
 	"github.com/risor-io/risor/op"
@@ -362,15 +363,29 @@ func (b *ByteSlice) ContainsAny(obj Object) Object {
 	return NewBool(bytes.ContainsAny(b.value, chars))
 }
 
+// singleRune returns the rune that makes up the entire string, if there is
+// exactly one. This includes multi-byte characters.
+func singleRune(s string) (rune, bool) {
+	r, size := utf8.DecodeRuneInString(s)
+	if size == 0 || size != len(s) {
+		return 0, false
+	}
+	if r == utf8.RuneError && size == 1 {
+		return rune(s[0]), true // a lone byte that is not valid UTF-8
+	}
+	return r, true
+}
+
 func (b *ByteSlice) ContainsRune(obj Object) Object {
 	s, err := AsString(obj)
 	if err != nil {
 		return err
 	}
-	if len(s) != 1 {
+	r, ok := singleRune(s)
+	if !ok {
 		return Errorf("byte_slice.contains_rune: argument must be a single character")
 	}
-	return NewBool(bytes.ContainsRune(b.value, rune(s[0])))
+	return NewBool(bytes.ContainsRune(b.value, r))
 }
 
 func (b *ByteSlice) Count(obj Object) Object {
@@ -429,10 +444,11 @@ func (b *ByteSlice) IndexRune(obj Object) Object {
 	if err != nil {
 		return err
 	}
-	if len(s) != 1 {
+	r, ok := singleRune(s)
+	if !ok {
 		return Errorf("byte_slice.index_rune: argument must be a single character")
 	}
-	return NewInt(int64(bytes.IndexRune(b.value, rune(s[0]))))
+	return NewInt(int64(bytes.IndexRune(b.value, r)))
 }
 
 func (b *ByteSlice) Repeat(obj Object) Object {
